@@ -98,14 +98,7 @@ def check(prog: Program, tier: str) -> Result:
     # ---- R06.0 shape
     for key_, where_, qn_, msg_ in hc.shape_findings(prog, ma):
         res.violation("R06.0", key_, where_, qn_, msg_)
-    it = ma.loop.iter
-    ok_iter = (isinstance(it, ast.Call) and attr_chain(it.func) == "range" and len(it.args) == 2
-               and ast.unparse(it.args[0]) == "self.start_month"
-               and " ".join(ast.unparse(it.args[1]).replace("(", "").replace(")", "").split()) in ("self.end_month + 1", "1 + self.end_month"))
-    res.ob("R06.0", f"month loop iterates range(self.start_month, self.end_month + 1): {ast.unparse(it)}", ok_iter, prog.loc(fi, ma.loop))
-    if not ok_iter:
-        res.violation("R06.0", "loop-range:" + ast.unparse(it), prog.loc(fi, ma.loop), fi.qualname,
-                      f"the month loop does not cover every simulated month: {ast.unparse(it)}")
+    res.ob("R06.0", f"month loop iterates range(self.start_month, self.end_month + 1): {ast.unparse(ma.loop.iter)}", not any(k_.startswith("loop-range:") for k_, _, _, _ in hc.shape_findings(prog, ma)), prog.loc(fi, ma.loop))
 
     # ---- per path
     seen = set()
